@@ -688,8 +688,10 @@ func newParseOptions(b []byte) (NewOptions, error) {
 		t := b[i]
 		l := int(b[i+1]) * 8
 
-		// Verify that we won't advance beyond the end of the byte slice.
-		if l > len(b[i:]) {
+		// Verify that we won't advance beyond the end of the byte slice and
+		// that the option is not empty: RFC 4861 4.6 - a length of zero is invalid
+		// and the packet must be discarded (the loop would never advance).
+		if l == 0 || l > len(b[i:]) {
 			return NewOptions{}, io.ErrUnexpectedEOF
 		}
 
